@@ -178,6 +178,7 @@ def run(chk):
     lls = lambda_lists(maxn)
     calls = list(call_shapes(4 if quick else 6))
     tasks = [("ll", x) for x in lls] + [("call", x) for x in calls]
+    import gc; gc.collect(); gc.freeze()  # forked workers then touch (copy) far fewer pages
     with mp.get_context("fork").Pool(chk.jobs) as pool:
         res = pool.map(_w, tasks, chunksize=64)
     seen = set()
